@@ -79,6 +79,7 @@ func runC04(c *Config, r *Report) {
 	c01R14(ic, r, "R04.11")
 	c04R13(ic, r)
 	c07R14(ic, r, "R04.14")
+	c04R15(ic, r)
 	{
 		sub := newReport("C01")
 		c01R20(ic, sub)
@@ -793,4 +794,66 @@ func c04R13(ic *IC, r *Report) {
 	})
 	r.Check(sets > 0, "R04.13", "cfg/redeclared-flag-set-for-definitions", ic.pos(cfgFn.Decl.Pos()), "cfg marks the destinations of a definition that are already declared in the scope",
 		"cfg never sets node.redeclared in its own assignment case (only the helper of a, b := f() does): the generator of a, c := 2, 3 cannot tell the redeclared a from a new variable")
+}
+
+func init() {
+	ruleText["R04.15"] = "the generators assigning the results of a multiple-value call (assignFromCall, and the assign-X branch of the compiled-call generator) set a map-entry destination in its map: each reaches reflect.Value.SetMapIndex through a path that tests isMapEntry; setting the entry's temporary slot leaves the map unchanged"
+}
+
+// c04R15: found D83 (m["x"], err = strconv.Atoi("42") left m empty).
+func c04R15(ic *IC, r *Report) {
+	info := ic.Info
+	// setter role: in-package function calling isMapEntry and SetMapIndex
+	setters := map[*types.Func]bool{}
+	for f, fi := range ic.G.Funcs {
+		if fi.Decl.Body == nil {
+			continue
+		}
+		if len(callsIn(info, fi.Decl.Body, true, "interp.isMapEntry")) > 0 && len(callsIn(info, fi.Decl.Body, true, "reflect.Value.SetMapIndex")) > 0 {
+			setters[f] = true
+		}
+	}
+	handles := func(body ast.Node) bool {
+		if len(callsIn(info, body, true, "interp.isMapEntry")) > 0 && len(callsIn(info, body, true, "reflect.Value.SetMapIndex")) > 0 {
+			return true
+		}
+		for _, c := range allCalls(body) {
+			if f, ok := calleeOf(info, c).(*types.Func); ok && setters[f] {
+				return true
+			}
+		}
+		return false
+	}
+	afc := ic.fn(r, "assignFromCall")
+	cb := ic.fn(r, "callBin")
+	if afc == nil || cb == nil {
+		return
+	}
+	r.Check(handles(afc.Decl.Body), "R04.15", "assignFromCall/map-entry-set-in-its-map", ic.pos(afc.Decl.Pos()), "a map-entry destination goes through SetMapIndex",
+		"assignFromCall sets every destination of a, b = f() with Set on the destination's value: for a map entry that value is the temporary holding the looked-up element, so m[\"x\"], err = f() leaves m unchanged")
+	// the branch of callBin under n.anc.action == aAssignX
+	var branch *ast.CaseClause
+	ast.Inspect(cb.Decl.Body, func(m ast.Node) bool {
+		cc, ok := m.(*ast.CaseClause)
+		if !ok {
+			return true
+		}
+		for _, l := range cc.List {
+			ast.Inspect(l, func(q ast.Node) bool {
+				if id, ok := q.(*ast.Ident); ok {
+					if c, ok := info.Uses[id].(*types.Const); ok && c.Name() == "aAssignX" {
+						branch = cc
+					}
+				}
+				return true
+			})
+		}
+		return true
+	})
+	if branch == nil {
+		r.Errorf("R04.15: the assign-X branch of callBin was not found")
+		return
+	}
+	r.Check(handles(branch), "R04.15", "callBin/assignX/map-entry-set-in-its-map", ic.pos(branch.Pos()), "a map-entry destination goes through SetMapIndex",
+		"the assign-X branch of callBin stores the results of a compiled call with Set on each destination's value: for a map entry that is the temporary holding the looked-up element, so m[\"x\"], err = strconv.Atoi(\"42\") leaves m unchanged")
 }
